@@ -1,14 +1,13 @@
-\* C14, thorough tier.  Symbolic machine integers: MAX = 2*H+1 = [2,1].
+\* C14, thorough tier, theorems.  Symbolic machine integers: MAX = 2*H+1 = [2,1]  (Go: H = 2^62-1, MAX = math.MaxInt).
 \* All operations with <= 4 selection nodes x {no custom cost, one slot, two slots, all slots uniform}.
-\* Measured: see notes/C14.md
+\* Measured: 1,819 trees, 335,451 inputs, 672,721 distinct states, depth 3; 2 workers ~4.5 min.
 CONSTANTS
   MaxH = 2
   MaxD = 1
   MaxSize = 4
   MaxCustom = 2
   Corpus = "gen"
-  Emit = TRUE
+  Emit = FALSE
 SPECIFICATION Spec
-ACTION_CONSTRAINT EmitEdge
 INVARIANTS TRange TDSmall TChildren TMonotone TPerm TFragment TGate TGateMono
 CHECK_DEADLOCK FALSE
